@@ -152,7 +152,7 @@ def gen_scenario(prng, tier, index, focus):
         n = interesting.size(prng, 1, 1025)                 # boundary vertex counts (most vertices then have degree zero)
     many_tops = prng.random() < 0.03
     sc = {"variant": variant, "algo": algo, "via": prng.choice(("direct", "factory")),
-          "rows": prng.choice(("tuple", "list")), "n": n}
+          "rows": prng.choice(("tuple", "tuple", "list", "list", "np_int64", "np_array")), "n": n}
     cols = []
     if algo in ("fast", "network"):
         ntop = prng.randrange(1, 5) if not many_tops else prng.randrange(5, 10)
@@ -415,8 +415,16 @@ def construct(sc, params):
 
 
 def make_jds(sc):
+    """The caller's sequence in the representation the scenario asks for: rows as tuples or lists of Python ints, as tuples of
+    numpy int64 scalars (degrees that come out of numpy code), or the whole sequence as a list of numpy rows."""
     if sc["rows"] == "tuple":
         return [tuple(r) for r in sc["jds"]]
+    if sc["rows"] == "np_int64":
+        import numpy as np
+        return [tuple(np.int64(x) for x in r) for r in sc["jds"]]
+    if sc["rows"] == "np_array" and sc["jds"] and all(max(r, default=0) < 2 ** 62 for r in sc["jds"]):
+        import numpy as np
+        return [np.array(r, dtype=np.int64) for r in sc["jds"]]
     return [list(r) for r in sc["jds"]]
 
 
